@@ -531,3 +531,519 @@ fn vaddress__read_address_port(buf: &mut Bytes) -> anyhow::Result<Address> {
             }
         }
     }
+
+//@@ octo-squirrel/src/codec/aead.rs:124-142  enum CipherKind  sha=0afd87d0c4335287
+#[derive(Default, Clone, Copy, PartialEq, Eq)]
+pub enum CipherKind {
+    Aes128Gcm,
+    Aes256Gcm,
+    ChaCha20Poly1305,
+    Aead2022Blake3Aes128Gcm,
+    Aead2022Blake3Aes256Gcm,
+    Aead2022Blake3ChaCha8Poly1305,
+    Aead2022Blake3ChaCha20Poly1305,
+    #[default]
+    Unknown,
+}
+
+//@@ octo-squirrel/src/codec/aead.rs:202-205  struct CountingNonceGenerator  sha=0f5c21bf210e24b4
+pub struct CountingNonceGenerator {
+    count: u16,
+    nonce_size: usize,
+}
+
+//@@ octo-squirrel/src/codec/aead.rs:207-211  impl CountingNonceGenerator#0  sha=f6b43176be373a63
+impl CountingNonceGenerator {
+    fn new(nonce_size: usize) -> Self {
+        Self { count: 0, nonce_size }
+    }
+}
+
+//@@ octo-squirrel/src/codec/aead.rs:213-219  impl CountingNonceGenerator#1  sha=fff6485661402e51
+impl CountingNonceGenerator {
+    fn generate<'a>(&mut self, nonce: &'a mut [u8]) -> &'a [u8] {
+        nonce[..size_of::<u16>()].copy_from_slice(&self.count.v_to_be_bytes());
+        self.count = self.count.overflowing_add(1).0;
+        &nonce[..self.nonce_size]
+    }
+}
+
+//@@ octo-squirrel/src/codec/chunk.rs:3-4  struct PlainSizeParser  sha=2e272aede21acd00
+#[derive(PartialEq, Eq)]
+pub struct PlainSizeParser;
+
+//@@ octo-squirrel/src/codec/chunk.rs:6-20  impl PlainSizeParser  sha=3ca6d4920bfa464c
+impl PlainSizeParser {
+    const fn size_bytes() -> usize {
+        size_of::<u16>()
+    }
+
+    fn encode_size(size: usize) -> Vec<u8> {
+        (size as u16).v_to_be_bytes().to_vec()
+    }
+
+    fn decode_size(data: &[u8]) -> usize {
+        let mut bytes = [0; Self::size_bytes()];
+        bytes.copy_from_slice(&data[..Self::size_bytes()]);
+        u16::v_from_be_bytes(bytes) as usize
+    }
+}
+
+//@@ octo-squirrel/src/protocol/vmess/auth.rs:3-13  fn generate_chacha20_poly1305_key  sha=e6965e7b5324fc02
+fn vauth__generate_chacha20_poly1305_key(raw: &[u8]) -> [u8; 32] {
+    let mut key = [0; 32];
+    let mut hasher = Md5::new();
+    hasher.update(raw);
+    let res = hasher.finalize_reset();
+    key[..16].copy_from_slice(&res);
+    hasher.update(&res[..16]);
+    let res = hasher.finalize();
+    key[16..].copy_from_slice(&res);
+    key
+}
+
+//@@ octo-squirrel/src/protocol/vmess/header.rs:91-98  struct RequestHeader  sha=b65e8099b86fe635
+pub struct RequestHeader {
+    pub version: u8,
+    pub command: RequestCommand,
+    pub option: Vec<RequestOption>,
+    pub security: SecurityType,
+    pub address: Address,
+    pub id: [u8; 16],
+}
+
+//@@ octo-squirrel/src/protocol/vmess/header.rs:100-115  impl RequestHeader {fn new}  sha=8900f2bb71f9a1ea
+impl RequestHeader {
+    fn new(version: u8, command: RequestCommand, option: Vec<RequestOption>, security: SecurityType, address: Address, id: [u8; 16]) -> Self {
+        Self { version, command, option, security, address, id }
+    }
+}
+
+//@@ octo-squirrel/src/protocol/vmess/session.rs:14-21  session_impl!(ClientSession) / struct ClientSession  sha=bf3f57e2957c1317
+#[derive(Clone)]
+        pub struct ClientSession {
+            pub request_body_iv: [u8; 16],
+            pub request_body_key: [u8; 16],
+            pub response_body_iv: [u8; 16],
+            pub response_body_key: [u8; 16],
+            pub response_header: u8,
+        }
+
+//@@ octo-squirrel/src/protocol/vmess/session.rs:23-36  session_impl!(ClientSession) / impl ClientSession  sha=aeae1eed5be4de8a
+impl ClientSession {
+            fn init(request_body_iv: [u8; 16], request_body_key: [u8; 16], response_header: u8) -> Self {
+                let mut hasher = Sha256::new();
+                hasher.update(request_body_iv);
+                let res = hasher.finalize_reset();
+                let mut response_body_iv = [0; 16];
+                response_body_iv.copy_from_slice(&res[..16]);
+                hasher.update(request_body_key);
+                let res = hasher.finalize_reset();
+                let mut response_body_key = [0; 16];
+                response_body_key.copy_from_slice(&res[..16]);
+                Self { request_body_iv, request_body_key, response_body_iv, response_body_key, response_header }
+            }
+        }
+
+//@@ octo-squirrel/src/protocol/vmess/session.rs:14-21  session_impl!(ServerSession) / struct ServerSession  sha=613a651e6221cf44
+#[derive(Clone)]
+        pub struct ServerSession {
+            pub request_body_iv: [u8; 16],
+            pub request_body_key: [u8; 16],
+            pub response_body_iv: [u8; 16],
+            pub response_body_key: [u8; 16],
+            pub response_header: u8,
+        }
+
+//@@ octo-squirrel/src/protocol/vmess/session.rs:23-36  session_impl!(ServerSession) / impl ServerSession  sha=331ea5508e871d41
+impl ServerSession {
+            fn init(request_body_iv: [u8; 16], request_body_key: [u8; 16], response_header: u8) -> Self {
+                let mut hasher = Sha256::new();
+                hasher.update(request_body_iv);
+                let res = hasher.finalize_reset();
+                let mut response_body_iv = [0; 16];
+                response_body_iv.copy_from_slice(&res[..16]);
+                hasher.update(request_body_key);
+                let res = hasher.finalize_reset();
+                let mut response_body_key = [0; 16];
+                response_body_key.copy_from_slice(&res[..16]);
+                Self { request_body_iv, request_body_key, response_body_iv, response_body_key, response_header }
+            }
+        }
+
+//@@ octo-squirrel/src/protocol/vmess/session.rs:57-66  impl ClientSession  sha=dc7916b483264228
+impl ClientSession {
+    fn new() -> Self {
+        let mut request_body_iv: [u8; 16] = [0; 16];
+        let mut request_body_key: [u8; 16] = [0; 16];
+        let response_header = random();
+        dice::fill_bytes(&mut request_body_iv);
+        dice::fill_bytes(&mut request_body_key);
+        Self::init(request_body_iv, request_body_key, response_header)
+    }
+}
+
+//@@ octo-squirrel/src/protocol/vmess/session.rs:84-88  impl ServerSession  sha=863aa4479bd6febd
+impl ServerSession {
+    fn new(request_body_iv: [u8; 16], request_body_key: [u8; 16], response_header: u8) -> Self {
+        Self::init(request_body_iv, request_body_key, response_header)
+    }
+}
+
+//@@ octo-squirrel/src/protocol/vmess/session.rs:102-111  trait Session  sha=4da6976679419429
+pub trait Session {
+    fn encoder_key(&self) -> &[u8];
+    fn encoder_nonce(&self) -> &[u8];
+    fn encoder_nonce_mut(&mut self) -> &mut [u8];
+    fn decoder_key(&self) -> &[u8];
+    fn decoder_nonce(&self) -> &[u8];
+    fn decoder_nonce_mut(&mut self) -> &mut [u8];
+    fn chunk_key(&self) -> &[u8];
+    fn chunk_nonce(&mut self) -> &mut [u8];
+}
+
+//@@ octo-squirrel/src/protocol/vmess/session.rs:113-138  impl Session for ClientSession  sha=4f2f94b37ca732e9
+impl Session for ClientSession {
+    fn encoder_key(&self) -> &[u8] {
+        &self.request_body_key
+    }
+    fn encoder_nonce(&self) -> &[u8] {
+        &self.request_body_iv
+    }
+    fn encoder_nonce_mut(&mut self) -> &mut [u8] {
+        &mut self.request_body_iv
+    }
+    fn decoder_key(&self) -> &[u8] {
+        &self.response_body_key
+    }
+    fn decoder_nonce(&self) -> &[u8] {
+        &self.response_body_iv
+    }
+    fn decoder_nonce_mut(&mut self) -> &mut [u8] {
+        &mut self.response_body_iv
+    }
+    fn chunk_key(&self) -> &[u8] {
+        &self.request_body_key
+    }
+    fn chunk_nonce(&mut self) -> &mut [u8] {
+        &mut self.request_body_iv
+    }
+}
+
+//@@ octo-squirrel/src/protocol/vmess/session.rs:140-165  impl Session for ServerSession  sha=f345262f17d840b3
+impl Session for ServerSession {
+    fn encoder_key(&self) -> &[u8] {
+        &self.response_body_key
+    }
+    fn encoder_nonce(&self) -> &[u8] {
+        &self.response_body_iv
+    }
+    fn encoder_nonce_mut(&mut self) -> &mut [u8] {
+        &mut self.response_body_iv
+    }
+    fn decoder_key(&self) -> &[u8] {
+        &self.request_body_key
+    }
+    fn decoder_nonce(&self) -> &[u8] {
+        &self.request_body_iv
+    }
+    fn decoder_nonce_mut(&mut self) -> &mut [u8] {
+        &mut self.request_body_iv
+    }
+    fn chunk_key(&self) -> &[u8] {
+        &self.request_body_key
+    }
+    fn chunk_nonce(&mut self) -> &mut [u8] {
+        &mut self.request_body_iv
+    }
+}
+
+//@@ octo-squirrel/src/codec/vmess/aead.rs:30-30  const AUTH_LEN  sha=e88774a73755d6db
+#[verifier::external_body] exec const AUTH_LEN: &'static [u8] ensures AUTH_LEN@ =~= seq![97u8, 117u8, 116u8, 104u8, 95u8, 108u8, 101u8, 110u8] { b"auth_len" }
+
+//@@ octo-squirrel/src/codec/vmess/aead.rs:31-31  const MAX_PADDING_LENGTH  sha=2b28c4f45deee898
+const MAX_PADDING_LENGTH: usize = 63;
+
+//@@ octo-squirrel/src/codec/vmess/aead.rs:33-40  struct AEADBodyCodec  sha=bdaacff0535c56be
+pub struct AEADBodyCodec {
+    auth: Authenticator,
+    chunk: ChunkSizeParser,
+    padding: PaddingLengthGenerator,
+    shake: ShakeSizeParser,
+    payload_limit: usize,
+    state: DecodeState,
+}
+
+//@@ octo-squirrel/src/codec/vmess/aead.rs:42-202  impl AEADBodyCodec  sha=899f27ef05cfb78d
+impl AEADBodyCodec {
+    fn new<VDynSession: Session>(
+        header: &RequestHeader,
+        session: &mut VDynSession,
+        key: impl FnOnce(&VDynSession) -> &[u8],
+        nonce: impl FnOnce(&VDynSession) -> &[u8],
+    ) -> Result<Self, InvalidLength> {
+        let mut chunk = ChunkSizeParser::Plain;
+        let mut padding = PaddingLengthGenerator::Empty;
+        if header.option.contains(&RequestOption::ChunkMasking) {
+            chunk = ChunkSizeParser::Shake;
+        }
+        if header.option.contains(&RequestOption::GlobalPadding) {
+            padding = PaddingLengthGenerator::Shake;
+        }
+        if header.option.contains(&RequestOption::AuthenticatedLength) {
+            let key = session.chunk_key();
+            chunk = ChunkSizeParser::Auth(new_aead_chunk_size_cipher(header.security, key)?);
+        }
+        let key: &[u8] = key(session);
+        let cipher = match header.security {
+            SecurityType::Chacha20Poly1305 => new_aead_cipher(header.security, &vauth__generate_chacha20_poly1305_key(key)),
+            _ => new_aead_cipher(header.security, key),
+        };
+        let nonce = nonce(session);
+        let shake = ShakeSizeParser::new(nonce);
+        Ok(Self { auth: Authenticator::new(cipher), chunk, padding, shake, payload_limit: 2048, state: DecodeState::Padding })
+    }
+
+    fn new_encoder(header: &RequestHeader, session: &mut impl Session) -> Result<Self, InvalidLength> {
+        Self::new(header, session, |s| s.encoder_key(), |s| s.encoder_nonce())
+    }
+
+    fn new_decoder(header: &RequestHeader, session: &mut impl Session) -> Result<Self, InvalidLength> {
+        Self::new(header, session, |s| s.decoder_key(), |s| s.decoder_nonce())
+    }
+
+    fn encode_chunk(&mut self, src: &mut BytesMut, dst: &mut BytesMut, session: &mut impl Session) -> Result<(), aead::Error> {
+        let padding_length = self.next_padding_length();
+        /*R2*/
+        let tag_size = self.auth.cipher.tag_size();
+        let encrypted_size = src.remaining().min(self.payload_limit - tag_size - self.chunk.size_bytes() - padding_length);
+        let encrypted_size_bytes = self.encode_size(encrypted_size + padding_length + tag_size, session.chunk_nonce())?;
+        dst.extend_from_slice(&encrypted_size_bytes);
+        let mut payload_bytes = src.split_to(encrypted_size);
+        self.auth.seal(&mut payload_bytes, session.encoder_nonce_mut())?;
+        dst.extend_from_slice(&payload_bytes);
+        let mut padding_bytes: Vec<u8> = vec![0; padding_length];
+        dice::fill_bytes(&mut padding_bytes);
+        dst.extend_from_slice(&padding_bytes);
+        Ok(())
+    }
+
+    fn next_padding_length(&mut self) -> usize {
+        match self.padding {
+            PaddingLengthGenerator::Empty => 0,
+            PaddingLengthGenerator::Shake => self.shake.next_padding_length(),
+        }
+    }
+
+    fn encode_size(&mut self, size: usize, nonce: &mut [u8]) -> Result<Vec<u8>, aead::Error> {
+        match self.chunk {
+            ChunkSizeParser::Plain => Ok(PlainSizeParser::encode_size(size)),
+            ChunkSizeParser::Auth(ref mut parser) => parser.encode_size(size, nonce),
+            ChunkSizeParser::Shake => Ok(self.shake.encode_size(size)),
+        }
+    }
+
+    fn encode_payload(&mut self, mut src: BytesMut, dst: &mut BytesMut, session: &mut impl Session) -> Result<(), aead::Error> {
+        while src.has_remaining() {
+            self.encode_chunk(&mut src, dst, session)?;
+        }
+        Ok(())
+    }
+
+    fn encode_packet(&mut self, mut src: BytesMut, dst: &mut BytesMut, session: &mut impl Session) -> Result<(), aead::Error> {
+        // a datagram travels in exactly one chunk: one that cannot fit (with the largest padding) is dropped, never truncated
+        if src.remaining() > self.payload_limit - self.auth.cipher.tag_size() - self.chunk.size_bytes() - MAX_PADDING_LENGTH {
+            /*R2*/
+            return Ok(());
+        }
+        self.encode_chunk(&mut src, dst, session)
+    }
+
+    fn decode_packet(&mut self, src: &mut BytesMut, session: &mut impl Session) -> Result<Option<BytesMut>, aead::Error> {
+        loop {
+            match self.state {
+                DecodeState::Padding => {
+                    let padding = self.next_padding_length();
+                    self.state = DecodeState::Length(padding)
+                }
+                DecodeState::Length(padding) => {
+                    let size_bytes = self.chunk.size_bytes();
+                    if src.remaining() < size_bytes {
+                        return Ok(None);
+                    }
+                    let length = self.decode_size(&mut src.split_to(size_bytes), session.chunk_nonce())?;
+                    self.state = DecodeState::Body(padding, length)
+                }
+                DecodeState::Body(padding, length) => {
+                    if length < padding + self.auth.cipher.tag_size() {
+                        return Err(aead::Error);
+                    }
+                    if src.remaining() < length {
+                        return Ok(None);
+                    }
+                    let mut packet_bytes = src.split_to(length - padding);
+                    self.auth.open(&mut packet_bytes, session.decoder_nonce_mut())?;
+                    src.advance(padding);
+                    self.state = DecodeState::Padding;
+                    return Ok(Some(packet_bytes));
+                }
+            }
+        }
+    }
+
+    fn decode_payload(&mut self, src: &mut BytesMut, session: &mut impl Session) -> Result<Option<BytesMut>, aead::Error> {
+        let mut dst = BytesMut::new();
+        loop {
+            match self.state {
+                DecodeState::Padding => {
+                    let padding = self.next_padding_length();
+                    /*R2*/
+                    self.state = DecodeState::Length(padding)
+                }
+                DecodeState::Length(padding) => {
+                    let size_bytes = self.chunk.size_bytes();
+                    if src.remaining() < size_bytes {
+                        break;
+                    }
+                    let length = self.decode_size(&mut src.split_to(size_bytes), session.chunk_nonce())?;
+                    /*R2*/
+                    self.state = DecodeState::Body(padding, length)
+                }
+                DecodeState::Body(padding, length) => {
+                    if length < padding + self.auth.cipher.tag_size() {
+                        return Err(aead::Error);
+                    }
+                    if src.remaining() < length {
+                        break;
+                    }
+                    dst.reserve(length);
+                    let mut payload_bytes = src.split_to(length - padding);
+                    self.auth.open(&mut payload_bytes, session.decoder_nonce_mut())?;
+                    dst.extend_from_slice(&payload_bytes);
+                    src.advance(padding);
+                    self.state = DecodeState::Padding
+                }
+            }
+        }
+        if dst.is_empty() { Ok(None) } else { Ok(Some(dst)) }
+    }
+
+    fn decode_size(&mut self, data: &mut BytesMut, nonce: &mut [u8]) -> Result<usize, aead::Error> {
+        match self.chunk {
+            ChunkSizeParser::Plain => Ok(PlainSizeParser::decode_size(data)),
+            ChunkSizeParser::Auth(ref mut parser) => parser.decode_size(data, nonce),
+            ChunkSizeParser::Shake => Ok(self.shake.decode_size(data)),
+        }
+    }
+}
+
+//@@ octo-squirrel/src/codec/vmess/aead.rs:204-210  fn new_aead_chunk_size_cipher  sha=8c799de89cf4fcaf
+fn new_aead_chunk_size_cipher(security: SecurityType, key: &[u8]) -> Result<Authenticator, InvalidLength> {
+    let key = &kdf__kdf16(key, vec![AUTH_LEN]);
+    match security {
+        SecurityType::Chacha20Poly1305 => Ok(Authenticator::new(new_aead_cipher(security, &vauth__generate_chacha20_poly1305_key(key)))),
+        _ => Ok(Authenticator::new(new_aead_cipher(security, key))),
+    }
+}
+
+//@@ octo-squirrel/src/codec/vmess/aead.rs:212-217  fn new_aead_cipher  sha=a43b34990658e958
+fn new_aead_cipher(security: SecurityType, key: &[u8]) -> CipherMethod {
+    match security {
+        SecurityType::Chacha20Poly1305 => CipherMethod::new(CipherKind::ChaCha20Poly1305, key),
+        _ => CipherMethod::new(CipherKind::Aes128Gcm, key),
+    }
+}
+
+//@@ octo-squirrel/src/codec/vmess/aead.rs:219-223  enum DecodeState  sha=4e14d0a969f8d1f8
+enum DecodeState {
+    Padding,
+    Length(usize),
+    Body(usize, usize),
+}
+
+//@@ octo-squirrel/src/codec/vmess/aead.rs:225-230  enum ChunkSizeParser  sha=169b4fbd176ccc20
+enum ChunkSizeParser {
+    Plain,
+    Auth(Authenticator),
+    Shake,
+}
+
+//@@ octo-squirrel/src/codec/vmess/aead.rs:232-240  impl ChunkSizeParser  sha=8751950b1084d57e
+impl ChunkSizeParser {
+    fn size_bytes(&self) -> usize {
+        match self {
+            ChunkSizeParser::Plain => PlainSizeParser::size_bytes(),
+            ChunkSizeParser::Auth(parser) => parser.size_bytes(),
+            ChunkSizeParser::Shake => ShakeSizeParser::size_bytes(),
+        }
+    }
+}
+
+//@@ octo-squirrel/src/codec/vmess/aead.rs:242-246  enum PaddingLengthGenerator  sha=75ac74a9f99599d7
+#[derive(PartialEq, Eq)]
+enum PaddingLengthGenerator {
+    Empty,
+    Shake,
+}
+
+//@@ octo-squirrel/src/codec/vmess/aead.rs:248-251  struct Authenticator  sha=74b8236c7f661d18
+struct Authenticator {
+    cipher: CipherMethod,
+    counting: CountingNonceGenerator,
+}
+
+//@@ octo-squirrel/src/codec/vmess/aead.rs:253-281  impl Authenticator  sha=0239ba176a09b9a6
+impl Authenticator {
+    fn new(cipher: CipherMethod) -> Self {
+        let counting = CountingNonceGenerator::new(cipher.nonce_size());
+        Self { cipher, counting }
+    }
+
+    const fn size_bytes(&self) -> usize {
+        size_of::<u16>() + self.cipher.tag_size()
+    }
+
+    fn encode_size(&mut self, size: usize, nonce: &mut [u8]) -> Result<Vec<u8>, aead::Error> {
+        let mut buffer = ((size - self.cipher.tag_size()) as u16).v_to_be_bytes().to_vec();
+        self.seal(&mut buffer, nonce)?;
+        Ok(buffer)
+    }
+
+    fn decode_size(&mut self, buffer: &mut BytesMut, nonce: &mut [u8]) -> Result<usize, aead::Error> {
+        self.open(buffer, nonce)?;
+        Ok(buffer.get_u16() as usize + self.cipher.tag_size())
+    }
+
+    fn seal(&mut self, buffer: &mut impl Buffer, nonce: &mut [u8]) -> Result<(), aead::Error> {
+        self.cipher.encrypt_in_place(self.counting.generate(nonce), &[], buffer)
+    }
+
+    fn open(&mut self, buffer: &mut impl Buffer, nonce: &mut [u8]) -> Result<(), aead::Error> {
+        self.cipher.decrypt_in_place(self.counting.generate(nonce), &[], buffer)
+    }
+}
+
+//@@ octo-squirrel/src/codec/vmess/aead.rs:288-321  impl ShakeSizeParser {fn size_bytes,fn encode_size,fn decode_size,fn next_padding_length}  sha=396be22bd3786112
+impl ShakeSizeParser {
+
+    fn size_bytes() -> usize {
+        size_of::<u16>()
+    }
+
+    fn encode_size(&mut self, size: usize) -> Vec<u8> {
+        let mask = self.next() ^ size as u16;
+        mask.v_to_be_bytes().to_vec()
+    }
+
+    fn decode_size(&mut self, data: &[u8]) -> usize {
+        let mask = self.next();
+        let mut bytes = [0; 2];
+        bytes.copy_from_slice(data);
+        let size = u16::v_from_be_bytes(bytes);
+        (mask ^ size) as usize
+    }
+
+    fn next_padding_length(&mut self) -> usize {
+        (self.next() % 64) as usize
+    }
+}
